@@ -200,7 +200,9 @@ let dispatch cmd a =
        let cnt0 = if Array.length a > 7 then z_of_string a.(7) else z_of_int (List.length s0.st_recs) in
        let c0 = { cw_w = { w_cur = s0; w_others = [] }; cw_count = cnt0; cw_dirty = false; cw_params = [] } in
        let fresh = cops_okb c0 (List.concat groups) in
-       let show c r = unit_res r ^ "@" ^ tok_of_state c.cw_w.w_cur ^ "@" ^ string_of_z c.cw_count in
+       (* round 6: also PointFormat.dimensions (names: the standard dimensions of the format id, then the extra ones) *)
+       let show c r = unit_res r ^ "@" ^ tok_of_state c.cw_w.w_cur ^ "@" ^ string_of_z c.cw_count
+                      ^ "@" ^ String.concat "," (List.map tok_of_bytes (dim_names c.cw_w.w_cur)) in
        let rec go c gs acc = match gs with
          | [] -> (c, List.rev acc)
          | g :: rest ->
@@ -213,6 +215,9 @@ let dispatch cmd a =
   | "eb_enc" -> res tok_of_bytes (enc_eb (edim_of_tok a.(0)))
   | "eb_dec" -> res tok_of_edim (dec_eb (bytes_of_tok a.(0)))
   | "std_names" -> String.concat "," (List.map tok_of_bytes (std_names (z_of_string a.(0))))
+  | "rec_names" -> String.concat "," (List.map tok_of_bytes (rec_names (z_of_string a.(0))))
+  | "sub_names" -> String.concat "," (List.map tok_of_bytes (sub_names (z_of_string a.(0))))
+  | "std_dim_names" -> String.concat "," (List.map tok_of_bytes (std_dim_names (z_of_string a.(0))))
   | _ -> "unknown-command " ^ cmd
 
 let () =
